@@ -70,7 +70,7 @@ def run(env, tier, seed, broken=None):
     # strings
     bangla = [chr(c) for c in range(0x980, 0xA00) if unicodedata.category(chr(c)) != 'Cn']
     decomposable = [chr(c) for c in range(0x980, 0xA00) if unicodedata.normalize('NFD', chr(c)) != chr(c)]
-    strs = ['', 'a', 'abc', 'x y', 'তারিখ', 'ক্ষ', 'কো', 'কো', 'য়', 'য়', 'ড়ঢ়', 'é', 'é', 'Å', 'ñ', 'Ω', '1e3', ' pad ', 'tab\there', 'quote\'s', 'back\\slash', 'new\nline']
+    strs = ['100%', '%d', '%!', 'a%sb%v', '%%', 'trail\n', '\n', '\n\n', 'a\n\nb\n', '', 'a', 'abc', 'x y', 'তারিখ', 'ক্ষ', 'কো', 'কো', 'য়', 'য়', 'ড়ঢ়', 'é', 'é', 'Å', 'ñ', 'Ω', '1e3', ' pad ', 'tab\there', 'quote\'s', 'back\\slash', 'new\nline']
     strs += decomposable + [unicodedata.normalize('NFD', c) for c in decomposable] + ['ক' + c for c in bangla if unicodedata.combining(c)]
     for _ in range(400 if tier == 'quick' else 20000):
         strs.append(''.join(rng.choice(bangla + list('abc xyz') + ['́', '়', '্']) for _ in range(rng.randint(1, 12))))
@@ -93,6 +93,8 @@ def run(env, tier, seed, broken=None):
         cid = 'j%d' % n; n += 1
         cases.append({'id': cid, 'src': '%s "%s" + "%s";\n%s ["%s" + "%s"];\n%s p = "%s"; %s q = "%s"; %s p + q;\n' % (PRINT, a, b, PRINT, a, b, VAR, a, VAR, b, PRINT)})
         cmeta[cid] = unicodedata.normalize('NFC', a + b)
+    cases.append({'id': 'v%d' % n, 'src': '%s s = [1, "k"];\n%s [s, s];\n%s {a: s, b: s, c: [s]};\n%s e = [];\n%s [e, e, [e]];\n%s o = {};\n%s [o, o];\n' % (VAR, PRINT, PRINT, VAR, PRINT, VAR, PRINT),
+                  'want': '[[1 k] [1 k]]\nmap[a:[1 k] b:[1 k] c:[[1 k]]]\n[[] [] [[]]]\n[map[] map[]]'}); n += 1
     # nil / booleans / containers / functions
     for e, want in [(NIL, 'nil'), (TRUE, 'true'), (FALSE, 'false'), ('[1, [2, [3, []]], {}]', '[1 [2 [3 []]] map[]]'), ('{b: 1, a: [%s, %s], c: {d: "x"}}' % (NIL, TRUE), 'map[a:[<nil> true] b:1 c:map[d:x]]'),
                     ('[%s, "s", 1.5]' % NIL, '[<nil> s 1.5]'), (LEN, '<native fn len>'), (CLOCK, '<native fn>')]:
